@@ -50,3 +50,10 @@ Theorem C17_match_is_spelling_independent_refuted :
   (exists p, find_proxy s3 "a" = Some p /\ p_down p = []).
 Proof. exact populate_port_spelling_refuted. Qed.
 Print Assumptions C17_match_is_spelling_independent_refuted.
+
+(** a populate entry that replaces a proxy stops the old incarnation - directly in the branch that found
+    it, before the replacement is started or filed, whatever the replacement's address and enabled flag
+    (regenerated from ProxyCollection.AddOrReplace); what stop() then guarantees is the lifecycle theorem *)
+Theorem C17_replace_stops_the_old_proxy : replace_stops_the_old_proxy = true.
+Proof. reflexivity. Qed.
+Print Assumptions C17_replace_stops_the_old_proxy.
